@@ -57,6 +57,18 @@ fn inputs(tier: &str) -> Vec<Input> {
         ]));
         v.push(Input { label: "gen:colliding-abbreviations".into(), case: s.to_case() });
     }
+    // messages with several parts that no soap:header claims and a body without parts= (the body
+    // part is then chosen among several candidates)
+    for unbound in 2..=3usize {
+        use super::wsdlgen::{wsdl_with, OpSpec};
+        let mut s = wsdl_with(&[OpSpec { in_headers: unbound, out_headers: unbound, headers_without_parts: true, ..OpSpec::simple("PlaceOrder") }, OpSpec { in_headers: 1, headers_without_parts: true, ..OpSpec::simple("AuditOrder") }], "OrderService", "http://127.0.0.1:9/orders");
+        let w = s.wsdl.as_mut().unwrap();
+        w.b_ops[0].input.headers.clear();
+        if let Some(o) = w.b_ops[0].output.as_mut() {
+            o.headers.clear();
+        }
+        v.push(Input { label: format!("gen:wsdl-{unbound}-unclaimed-parts"), case: s.to_case() });
+    }
     // generated WSDLs with k operations and 2..3 parts per message
     for k in 2..=4usize {
         let mut s = crate::seeds::w0();
